@@ -308,12 +308,18 @@ def judge(sim: FacSim, h: History) -> list:
             sim.violate(ID, "undecodable", f"{typ}/{culprit}", f"{typ} payload ({len(m['e']['data'])} B) handed to BTP at {rel(m['t'])} does not decode: "
                         f"{m['err']!r}" + (f"; report #{rep['i']}: {_brief(rep['tpv'])}" if rep is not None and typ != "DENM" else ""), m["t"])
             continue
-        if typ == "CAM":
-            tr = _judge_cam(sim, m, rep, rel)
-        elif typ == "VAM":
-            tr = _judge_vam(sim, m, rep, rel)
-        else:
-            tr = _judge_denm(sim, h, m, rel)
+        try:
+            if typ == "CAM":
+                tr = _judge_cam(sim, m, rep, rel)
+            elif typ == "VAM":
+                tr = _judge_vam(sim, m, rep, rel)
+            else:
+                tr = _judge_denm(sim, h, m, rel)
+        except (KeyError, TypeError, IndexError) as e:
+            # the payload decodes, but not into the structure the service builds (a wrapped value spilled into a CHOICE / presence bit)
+            tr = (typ, "structure-differs")
+            sim.violate(ID, "undecodable", f"{typ}/structure", f"{typ} handed to BTP at {rel(m['t'])} decodes into a different structure than the "
+                        f"service built ({type(e).__name__}: {e})", m["t"])
         trace.append(tr)
 
     _judge_rx(sim, h, rel)
